@@ -115,15 +115,16 @@ Definition enum_order (vt : variant) (oracle : list name) (pop : population) : l
 Definition filter_names (pop : population) (f : comp -> bool) (ns : list name) : list name :=
   filter (fun n => match get_comp pop n with Some c => f c | None => false end) ns.
 
-(* candidates added by the wire processor (dependency_aware :44-69) or the func processor (:42-67);
+(* [enum] is the registry's enumeration (App.v normalises it with [enum_order] once per start).
+   candidates added by the wire processor (dependency_aware :44-69) or the func processor (:42-67);
    None stands for the nil meta GetMetaByName returns for an unknown name *)
-Definition candidates (vt : variant) (oracle : list name) (pop : population) (p : point)
+Definition candidates (enum : list name) (pop : population) (p : point)
   : list (option name) :=
   match pt_sel p with
   | SByType =>
     match pt_target p with
     | TOther => []
-    | t => map Some (filter_names pop (fun c => type_ok c t) (enum_order vt oracle pop))
+    | t => map Some (filter_names pop (fun c => type_ok c t) enum)
     end
   | SByName n =>
     if pt_slice p then []
@@ -134,7 +135,7 @@ Definition candidates (vt : variant) (oracle : list name) (pop : population) (p 
   | SFunc m rets =>
     match pt_target p with
     | TOther => []
-    | t => map Some (filter_names pop (fun c => type_ok c t && func_ok c m rets) (enum_order vt oracle pop))
+    | t => map Some (filter_names pop (fun c => type_ok c t && func_ok c m rets) enum)
     end
   end.
 
